@@ -8,7 +8,7 @@ REQUIRED = ["iint", "Epoch.easter", "Epoch.jewish_pesach", "Epoch.moslem2gregori
             "Epoch.dow", "Epoch.doy2date", "Epoch.is_julian", "Epoch.is_leap", "Epoch.__init__", "Epoch.set",
             "Epoch._compute_jde", "Epoch._check_values"]
 THEOREMS = ["C19_easter", "C19_easter_sunday", "C19_pesach", "C19_moslem2gregorian", "C19_roundtrip",
-            "C19_gregorian2moslem", "C19_consecutive", "C19_lengths", "C19_islamic_bijection"]
+            "C19_gregorian2moslem", "C19_roundtrip_civil", "C19_consecutive", "C19_lengths", "C19_islamic_bijection"]
 PROOF_TIMEOUT = {"quick": 1500, "thorough": 3000}
 EXHAUSTIVE = True
 MANIFEST = {
@@ -36,6 +36,8 @@ CLAUSES = {
     "round trip gregorian2moslem(moslem2gregorian(date)) = date": "proved [B64, full domain]",
     "gregorian2moslem = arithmetic Islamic calendar for every civil date 622-07-16..3048-02-07 (covers ..3000)":
         "proved [B64 full domain + spec bijection]",
+    "round trip moslem2gregorian(gregorian2moslem(civil date)) = civil date, 622-07-16..3048-02-07":
+        "proved [B64 full domain + spec bijection + CalSpec.jdn_inj]",
     "consecutive Moslem dates -> consecutive civil days": "proved [B64 + spec lemma islamic_jdn_next]",
     "months 30/29 days, years 354/355 days": "proved [B64 + spec]",
     "the arithmetic Islamic day count is a bijection stepping by one for ALL years": "proved [spec, lia]",
@@ -261,20 +263,11 @@ def search(rng, tier, deep):
     mods = load(["Epoch"])
     o = Oracle(mods["Epoch"].Epoch)
     full = deep or tier == "thorough"
-    # Easter
-    if full:
-        eyears = range(-4712, 10001)
-    else:
-        eyears = sorted(set([rng.randint(-4712, 10000) for _ in range(600)]
-                            + [-4712, -4711, -1, 0, 1, 2, 3, 4, 325, 1581, 1582, 1583, 1584, 1599, 1600, 1699, 1700, 1800,
-                               1818, 1899, 1900, 1943, 1954, 1981, 2000, 2038, 2099, 2100, 2199, 2200, 4099, 4200, 9999, 10000]
-                            + list(range(1570, 1610)) + list(range(1980, 2060))))
+    # Easter and Pesach: always every year of the property's quantifier (cheap)
+    eyears = range(-4712, 10001)
     for y in eyears:
         o.easter(y)
-    # Pesach
-    pyears = range(1, 3001) if full else sorted(set([rng.randint(1, 3000) for _ in range(500)]
-                                                    + [1, 2, 3, 4, 1581, 1582, 1583, 1584, 1599, 1600, 1700, 1800, 1900, 1990,
-                                                       2000, 2100, 2999, 3000] + list(range(1980, 2060))))
+    pyears = range(1, 3001)
     for y in pyears:
         o.pesach(y)
     # Moslem years: every date of the chosen years
@@ -315,7 +308,7 @@ def search(rng, tier, deep):
                       "g2m of the civil date, next-day step, month/year lengths)%s, civil dates %s; non-trivial = calls that "
                       "returned a date and were compared with the calendar spec")
                      % (("ALL -4712..10000", "ALL 1..3000", "ALL 2500", "", "ALL 622-07-16..3000-12-31") if full else
-                        ("%d sampled/boundary" % len(eyears), "%d sampled/boundary" % len(pyears), "%d sampled/boundary" % len(hyears),
+                        ("ALL -4712..10000", "ALL 1..3000", "%d sampled/boundary" % len(hyears),
                          " + the days around every Moslem new year 1..2500",
                          "around 1 March/1 January of every year 622..3000, Oct 1582, 3000 random")),
              "samples": [{"input": "Epoch.easter(1583)", "checked": "== Computus (4, 10)... Sunday, in window"},
